@@ -14,13 +14,19 @@
 //   instr (model):  p<m>  println marker | w<ms>  wait | T( .. )  thread block | W( .. )  waitthread block
 //                   R  `level.host host_reset` (Reset from inside a host command)
 //                   C  `level.host host_recompile` (recompile the RUNNING script from inside a host command)
+//                   st<k>  level.r<k> = local | ps  pause | xw<k>.<ms>  level.r<k> wait | xf<k>  level.r<k> waitframe | xp<k>  level.r<k> pause
+//                   (timing commands applied to ANOTHER thread through a stored reference)
 //   instr (ext):    o<k> local.o<k> = spawn Ent targetname "n<k>" | g<k> level.g<k> = spawn Ent | x<k> $n<k> remove
 //                   t<k>.<n> $n<k> waittill "s<n>" | n<k>.<n> $n<k> notify "s<n>" | e<k>.<n> local endon? (not used)
 //                   wp  local.parent waittill "never" (the parent thread is passed to every thread block)
 //                   a  array traffic | l  local.l = local CreateListener | d<ms> local commanddelay <s> println "d"
 //                   f<n> a counting loop printing n markers | q pause (never resumed)
-//   out:  m|x <prints|-> idle=<0|1> cls=<n> thr=<n> vm=<n> scr=<n> tmr=<0|1> ev=<n> trk=<n> ent=<live Ent>
+//   out:  m|x <prints|-> idle=<0|1> cls=<n> thr=<n> vm=<n> scr=<n> tmr=<timer elements> ev=<n> trk=<n> ent=<live Ent>
 //         V <text>             a direct violation found by the harness itself
+// the timer keeps its element list private: the harness counts the elements
+#define private public
+#include <morfuse/Script/timer.h>
+#undef private
 #include "engine.h"
 #include <morfuse/Script/SimpleEntity.h>
 #include <morfuse/Script/Level.h>
@@ -136,6 +142,15 @@ struct Gen {
             }
             else if (w == "R") out += "level.host host_reset\n";
             else if (w == "C") out += "level.host host_recompile\n";
+            else if (w == "ps") out += "pause\n";
+            else if (w.rfind("st", 0) == 0 && w.size() > 2 && isdigit((unsigned char)w[2])) out += "level.r" + w.substr(2) + " = local\n";
+            else if (w.rfind("xp", 0) == 0 && w.size() > 2) out += "level.r" + w.substr(2) + " pause\n";
+            else if (w.rfind("xf", 0) == 0 && w.size() > 2) out += "level.r" + w.substr(2) + " waitframe\n";
+            else if (w.rfind("xw", 0) == 0 && w.find('.') != std::string::npos) {
+                const size_t dot = w.find('.');
+                std::snprintf(buf, sizeof buf, " wait %.3f\n", std::atoi(w.c_str() + dot + 1) / 1000.0);
+                out += "level.r" + w.substr(2, dot - 2) + buf;
+            }
             else if (w == "sv") out += "level.th = local\n";
             else if (w == "wl") out += "level.th waittill \"never\"\n";
             else if (w == "wp") out += "local.parent waittill \"never\"\n";
@@ -189,8 +204,8 @@ static void observe(vh::Engine& e, char prefix, const std::string& op)
     for (const ScriptClass* c = e.director().GetHeadContainer(); c && chain <= cls + 1; c = c->GetNext()) ++chain;
     if (chain != cls) g_viol.push_back("instance chain holds " + std::to_string(chain) + " instances, the pool " + std::to_string(cls));
     if (g_doubleDtor) { g_viol.push_back("a script-created object was destroyed twice"); g_doubleDtor = 0; }
-    std::printf("%c %s %s idle=%d cls=%zu thr=%zu vm=%zu scr=%zu tmr=%d ev=%zu trk=%zu ent=%zu tmp=%zu\n", prefix, op.c_str(), d.c_str(), idle ? 1 : 0,
-                cls, thr, vm, e.director().GetNumScripts(), e.director().GetTimerList().HasAnyElement() ? 1 : 0,
+    std::printf("%c %s %s idle=%d cls=%zu thr=%zu vm=%zu scr=%zu tmr=%zu ev=%zu trk=%zu ent=%zu tmp=%zu\n", prefix, op.c_str(), d.c_str(), idle ? 1 : 0,
+                cls, thr, vm, e.director().GetNumScripts(), (size_t)e.director().GetTimerList().m_Elements.NumObjects(),
                 e.ctx->GetEventQueue().GetNumPendingEvents(), e.ctx->GetTrackedInstances().GetNumInstances(), g_liveEnt.size(), g_liveTmp.size());
     for (const std::string& v : g_viol) std::printf("V %s\n", v.c_str());
     g_viol.clear();
